@@ -35,6 +35,7 @@ KINDS = {
     'int8': lambda n, j: [(i * 5 + j) % 7 - 3 for i in range(n)],
     'intwide': lambda n, j: [1000 * (i + 1) + 37 * j for i in range(n)],
     'complex': lambda n, j: [complex(i + 1 + j, (i * 2 + j) % 3 - 1) for i in range(n)],
+    'floatinf': lambda n, j: [[float('inf'), float('-inf'), 1.5, -2.5, float('inf')][(i + 2 * j) % 5] for i in range(n)],
     'floatnan': lambda n, j: [float('nan') if (i + j) % 2 == 1 else i + 0.5 + j for i in range(n)],
     'allnan': lambda n, j: [float('nan')] * n,
     'bool': lambda n, j: [(i + j) % 2 == 0 for i in range(n)],
@@ -43,7 +44,7 @@ KINDS = {
     'str': lambda n, j: ['s%d%d' % (i, j) for i in range(n)],
     'date': lambda n, j: [np.datetime64('2020-01-0%d' % (1 + (i + 2 * j) % 9)) for i in range(n)],
 }
-DT = {'complex': 'complex128', 'int8': 'int8', 'intwide': 'int64', 'int': 'int64', 'float': 'float64', 'floatnan': 'float64', 'allnan': 'float64', 'bool': 'bool', 'booltrue': 'bool',
+DT = {'floatinf': 'float64', 'complex': 'complex128', 'int8': 'int8', 'intwide': 'int64', 'int': 'int64', 'float': 'float64', 'floatnan': 'float64', 'allnan': 'float64', 'bool': 'bool', 'booltrue': 'bool',
       'objnum': 'object', 'str': '<U3', 'date': 'datetime64[D]'}
 
 FUNCS = [('sum', {}), ('prod', {}), ('min', {}), ('max', {}), ('mean', {}), ('median', {}),
@@ -53,7 +54,7 @@ CUM = ['cumsum', 'cumprod']
 # (skipna version, propagating version)
 NPF = {'sum': (np.nansum, np.sum), 'prod': (np.nanprod, np.prod), 'min': (np.nanmin, np.min), 'max': (np.nanmax, np.max), 'mean': (np.nanmean, np.mean),
        'median': (np.nanmedian, np.median), 'std': (np.nanstd, np.std), 'var': (np.nanvar, np.var)}
-NUM = {'int', 'int8', 'intwide', 'float', 'floatnan', 'allnan', 'complex'}
+NUM = {'int', 'int8', 'intwide', 'float', 'floatnan', 'floatinf', 'allnan', 'complex'}
 NUMB = NUM | {'bool', 'booltrue'}
 
 
@@ -65,6 +66,9 @@ def defined(fname, kinds, axis):
     logical and order/sum reductions; Boolean mixed with numeric columns only column-wise (axis 0) -- row-wise such a mix is
     an object row, whose ordering / arithmetic NumPy does not define; homogeneous str / date frames for min and max.'''
     ks = set(kinds)
+    if 'floatinf' in ks:
+        # infinities of both signs: sums and products of them are NaN by IEEE arithmetic in an order-dependent way; only the order and logical reductions are compared
+        return ks <= NUM and 'complex' not in ks and fname in ('all', 'any', 'min', 'max', 'loc_min', 'loc_max', 'iloc_min', 'iloc_max')
     if 'complex' in ks:
         # complex numbers have no order: only the arithmetic reductions are defined, and only among numeric columns
         return ks <= NUM and fname in ('sum', 'prod', 'mean', 'var', 'std', 'cumsum', 'cumprod')
@@ -98,7 +102,7 @@ def flags(kinds, nrows, axis, parts_py):
 
 def scope(tier):
     if tier == 'quick':
-        return dict(kinds=('int8', 'intwide', 'float', 'floatnan', 'complex', 'bool', 'objnum', 'str', 'date'), maxcols=3, rows=(0, 1, 2, 3, 4))
+        return dict(kinds=('int8', 'intwide', 'float', 'floatnan', 'floatinf', 'complex', 'bool', 'objnum', 'str', 'date'), maxcols=3, rows=(0, 1, 2, 3, 4))
     return dict(kinds=tuple(KINDS), maxcols=4, rows=(0, 1, 2, 3, 4))
 
 
